@@ -91,6 +91,21 @@ inductive CType where
   | absent    -- no Content-Type header
   deriving Repr, DecidableEq
 
+/-- `needle in text` -/
+def hasInfix (needle : Str) : Str → Bool
+  | [] => needle.isPrefixOf []
+  | c :: cs => needle.isPrefixOf (c :: cs) || hasInfix needle cs
+
+/-- the class of a `Content-Type` header as the transport decides it: lower-cased (media types are
+    case-insensitive), then by substring -/
+def ctypeOf : Option Str → CType
+  | none => .absent
+  | some h =>
+    let l := h.map Char.toLower
+    if hasInfix "application/json".toList l then .json
+    else if hasInfix "text/event-stream".toList l then .sse
+    else .other
+
 /-- a response body: `response.text` (decoded with replacement characters) and whether the
     bytes are valid UTF-8 (`response.json()` raises `UnicodeDecodeError` otherwise) -/
 structure Body where
